@@ -8,7 +8,8 @@ sid, wt, prop, needs = sys.argv[1:5]
 checks = sys.argv[5:] or [prop]
 env = dict(os.environ, GOFLAGS="-mod=mod", GOPROXY="off", GOSUMDB="off", GOTOOLCHAIN="local")
 seed = os.path.join(wt, "_seed")
-patch = os.path.join(seed, "patch.diff")
+SUF = os.environ.get("SEED_SUFFIX", "")     # two alternatives per worktree: patchA.diff/demoA.sh, patchB.diff/demoB.sh
+patch = os.path.join(seed, "patch%s.diff" % SUF)
 ran = []
 def sh(cmd, cwd):
     p = subprocess.run(cmd, cwd=cwd, env=env, shell=isinstance(cmd, str), capture_output=True, text=True, timeout=1800)
@@ -20,7 +21,7 @@ if not applied:
     assert sh(["git", "apply", patch], wt) == 0, "cannot apply patch in worktree"
 ok_build = sh("go build ./...", wt) == 0
 ok_tests = sh("go test -vet=off -count=1 ./...", wt) == 0
-demo = "demo.sh" if os.path.exists(os.path.join(seed, "demo.sh")) else None
+demo = "demo%s.sh" % SUF if os.path.exists(os.path.join(seed, "demo%s.sh" % SUF)) else None
 rc_with = sh("bash _seed/%s" % demo, wt) if demo else None
 sh(["git", "apply", "-R", patch], wt)
 rc_without = sh("bash _seed/%s" % demo, wt) if demo else None
@@ -41,7 +42,9 @@ if confirmed:
     for f in os.listdir(seed):
         src = os.path.join(seed, f)
         if os.path.isfile(src) and os.path.getsize(src) < 200000 and f != "gontainer" and not f.endswith(".bin"):
-            shutil.copy(src, dst)
+            if SUF and (("A" in SUF and ("B." in f or f.endswith("B"))) or ("B" in SUF and ("A." in f or f.endswith("A")))):
+                continue
+            shutil.copy(src, os.path.join(dst, f.replace("patch%s.diff" % SUF, "patch.diff").replace("demo%s.sh" % SUF, "demo.sh") if SUF else f))
     json.dump({"id": sid, "breaks_property": prop, "needs_to_manifest": needs, "origin": "independent sub-agent given only the property text and a scratch worktree",
                "confirmed": {"builds": ok_build, "existing_tests_pass_with_change": ok_tests, "demo_exit_with_change": rc_with, "demo_exit_without_change": rc_without},
                "what_i_ran": ran, "checks_run_quick_tier": det, "detected_by": sorted(k for k, v in det.items() if v is True)},
